@@ -149,8 +149,50 @@ fn e2e(payload: &str) -> String {
     )
 }
 
+/// the usvg::Tree values nested below a group: one "[..]" per Image node that holds ImageKind::SVG, with what is
+/// nested inside that tree between the brackets (document order; feImage / clip / mask / pattern roots included)
+fn nest_group(g: &usvg::Group, out: &mut String) {
+    for f in g.filters() {
+        for p in f.primitives() {
+            if let usvg::filter::Kind::Image(ref img) = p.kind() {
+                nest_group(img.root(), out);
+            }
+        }
+    }
+    for n in g.children() {
+        match n {
+            usvg::Node::Group(ref gg) => nest_group(gg, out),
+            usvg::Node::Image(ref i) => {
+                if let usvg::ImageKind::SVG(ref t) = i.kind() {
+                    out.push('[');
+                    nest_group(t.root(), out);
+                    out.push(']');
+                }
+            }
+            usvg::Node::Path(_) => n.subroots(|r| nest_group(r, out)),
+            usvg::Node::Text(ref t) => nest_group(t.flattened(), out),
+        }
+    }
+}
+
+/// c03-nest  payload `opts\tdoc` -> {"ok":true,"nest":"[[]][]","witness":bool} | {"error":..}
+fn nest(payload: &str) -> String {
+    let (opts, doc) = payload.split_once('\t').unwrap_or(("", payload));
+    let tree = match parse_doc(opts, doc) {
+        Ok(t) => t,
+        Err(e) => return format!("{{\"error\":{}}}", esc(&e)),
+    };
+    let mut s = String::new();
+    nest_group(tree.root(), &mut s);
+    let mut nodes = Vec::new();
+    walk(tree.root(), &mut nodes);
+    let rendered = render_tree(&tree, 100, 100, tiny_skia::Transform::identity()).is_some();
+    format!("{{\"ok\":true,\"nest\":{},\"nodes\":[{}],\"rendered\":{}}}", esc(&s), nodes.join(","), rendered)
+}
+
 pub fn dispatch(op: &str, _args: &[String]) -> bool {
     match op {
+        "c03-nest" => run_batch(nest),
         "c03-svgtree" => run_batch(svgtree),
         "c03-e2e" => run_batch(e2e),
         _ => return false,
